@@ -31,7 +31,7 @@ Inductive ty :=
 | TTime                  (* Timestamp: array [secs, ticks] *)
 | TArr (e : ty)          (* write_array_start(size) + elements / dec.read_array(callback) *)
 | TIdx                   (* IndexListItem: array of index_t with its own read loop *)
-| TMap (signed_keys : bool) (fs : fields)
+| TMap (signed_keys : bool) (accs : list bool) (fs : fields)   (* accs: the members read() never resets - a repeated key APPENDS to them (empty list: none) *)
 with fields :=
 | FNil
 | FCons (key : Z) (p : presence) (t : ty) (rest : fields).
@@ -71,7 +71,7 @@ Fixpoint write_val (t : ty) (v : val) {struct t} : list eop :=
   | TTime, VL [VN s; VN k] => [OArr 2; OU64 s; OU64 k]
   | TArr e, VL xs => OArr (N.of_nat (length xs)) :: flat_map (write_val e) xs
   | TIdx, VL xs => OArr (N.of_nat (length xs)) :: flat_map (fun x => match x with VN n => [OU32 n] | _ => [] end) xs
-  | TMap sk fs, VR vs => OMap (count_present fs vs) :: write_fields sk fs vs
+  | TMap sk _ fs, VR vs => OMap (count_present fs vs) :: write_fields sk fs vs
   | _, _ => []            (* ill-typed value: excluded by [has_ty] *)
   end
 with write_fields (sk : bool) (fs : fields) (vs : list (option val)) {struct fs} : list eop :=
@@ -96,7 +96,7 @@ Fixpoint has_ty (t : ty) (v : val) {struct t} : Prop :=
   | TTime, VL [VN s; VN k] => s < two64 /\ k < two64
   | TArr e, VL xs => N.of_nat (length xs) < two64 /\ (fix all l := match l with [] => True | x :: l' => has_ty e x /\ all l' end) xs
   | TIdx, VL xs => N.of_nat (length xs) < two64 /\ (fix all l := match l with [] => True | x :: l' => (match x with VN n => n < 2 ^ 32 | _ => False end) /\ all l' end) xs
-  | TMap sk fs, VR vs => fields_ty sk fs vs
+  | TMap sk _ fs, VR vs => fields_ty sk fs vs
   | _, _ => False
   end
 with fields_ty (sk : bool) (fs : fields) (vs : list (option val)) {struct fs} : Prop :=
@@ -203,7 +203,7 @@ Fixpoint mand_ok (fs : fields) (vs : list (option val)) : bool :=
 Definition zero_of (t : ty) : val :=
   match t with
   | TU _ => VN 0 | TI => VZ 0 | TBool => VB false | TText | TBytes => VS []
-  | TTime => VL [VN 0; VN 0] | TArr _ | TIdx => VL [] | TMap _ _ => VR []
+  | TTime => VL [VN 0; VN 0] | TArr _ | TIdx => VL [] | TMap _ _ _ => VR []
   end.
 Fixpoint fill_always (fs : fields) (vs : list (option val)) : list (option val) :=
   match fs, vs with
@@ -212,7 +212,25 @@ Fixpoint fill_always (fs : fields) (vs : list (option val)) : list (option val) 
   | _, _ => vs
   end.
 
+(* what a member holds after its key has been read (again): the value just read, except for the members the C++ never resets before
+   reading - CdnsBlockRead's three item vectors and nine tables (push_back / add_value onto what is there), and the block tables as a whole
+   (read_blocktables fills the same tables again): there a repeated key appends *)
+Definition merge_list (old new : val) : val := match old, new with VL a, VL b => VL (a ++ b) | _, _ => new end.
+Definition merge_opt (x y : option val) : option val :=
+  match x, y with Some a, Some b => Some (merge_list a b) | Some a, None => Some a | None, _ => y end.
+Fixpoint map2o (f : option val -> option val -> option val) (a b : list (option val)) : list (option val) :=
+  match a, b with x :: a', y :: b' => f x y :: map2o f a' b' | _, _ => b end.
+Definition merge_val (old : option val) (v : val) : val :=
+  match old, v with
+  | Some (VR fa), VR fb => VR (map2o merge_opt fa fb)
+  | Some o, _ => merge_list o v
+  | None, _ => v
+  end.
+Definition upd_slot (accs : list bool) (i : nat) (old : option val) (v : val) : val :=
+  if nth i accs false then merge_val old v else v.
+
 Section MapLoop.
+  Variable accs : list bool.
   (* [rdk key] = the reader of the member with that key and its slot, None for an unknown key *)
   Variable rdk : Z -> option (nat * prog val).
   Variable sk : prog unit.
@@ -224,7 +242,7 @@ Section MapLoop.
       let body :=
         key <- read_integer ;;
         match rdk key with
-        | Some (i, rd) => v <- rd ;; map_loop g' (n - 1) indef (set_nth i (Some v) rec)
+        | Some (i, rd) => v <- rd ;; map_loop g' (n - 1) indef (set_nth i (Some (upd_slot accs i (nth i rec None) v)) rec)
         | None => sk ;;; map_loop g' (n - 1) indef rec
         end in
       if indef then
@@ -247,9 +265,9 @@ Fixpoint read_val (g : nat) (t : ty) {struct t} : prog val :=
   | TTime => read_time
   | TArr e => read_arr (read_val g e) g
   | TIdx => read_idx g
-  | TMap _ fs =>
+  | TMap _ accs fs =>
       st <- read_map_start ;;
-      rec <- map_loop (find_field g fs O) (skip_item g) g (fst st) (snd st) (init_rec fs) ;;
+      rec <- map_loop accs (find_field g fs O) (skip_item g) g (fst st) (snd st) (init_rec fs) ;;
       if mand_ok fs rec then Ret (VR (fill_always fs rec)) else Throw EDec
   end
 with find_field (g : nat) (fs : fields) (i : nat) {struct fs} : Z -> option (nat * prog val) :=
@@ -262,7 +280,9 @@ with find_field (g : nat) (fs : fields) (i : nat) {struct fs} : Z -> option (nat
 Definition U8 := TU 8. Definition U16 := TU 16. Definition U32 := TU 32. Definition U64 := TU 64.
 Fixpoint mk_fields (l : list (Z * presence * ty)) : fields :=
   match l with [] => FNil | (k, p, t) :: r => FCons k p t (mk_fields r) end.
-Definition S_ (l : list (Z * presence * ty)) : ty := TMap false (mk_fields l).
+Definition S_ (l : list (Z * presence * ty)) : ty := TMap false [] (mk_fields l).
+(* a structure whose listed members accumulate over repeated keys *)
+Definition SA_ (accs : list bool) (l : list (Z * presence * ty)) : ty := TMap false accs (mk_fields l).
 
 Local Open Scope Z_scope.
 Definition StorageHints : ty := S_ [(0, Mand, U32); (1, Mand, U32); (2, Mand, U8); (3, Mand, U8)].
@@ -289,7 +309,7 @@ Definition BlockPreamble : ty := S_ [(0, Always, TTime); (1, Opt, U32)].
 Definition BlockStatistics : ty := S_ [(0, Opt, U32); (1, Opt, U32); (2, Opt, U32); (3, Opt, U32); (4, Opt, U32); (5, Opt, U32)].
 (* QueryResponse: member 0 is the time offset already expressed in ticks from the block's earliest time *)
 Definition QueryResponse : ty :=
-  TMap true (mk_fields
+  TMap true [] (mk_fields
      [(0, Opt, U64); (1, Opt, U32); (2, Opt, U16); (3, Opt, U16); (4, Opt, U32); (5, Opt, U8); (6, Opt, TI);
       (7, Opt, U32); (8, Opt, U64); (9, Opt, U64); (10, Opt, ResponseProcessingData);
       (11, Opt, QueryResponseExtended); (12, Opt, QueryResponseExtended);
@@ -297,11 +317,11 @@ Definition QueryResponse : ty :=
 Definition AddressEventCount : ty := S_ [(0, Mand, U8); (1, Opt, U8); (2, Mand, U32); (3, Opt, U8); (4, Mand, U64)].
 Definition MalformedMessage : ty := S_ [(0, Opt, U64); (1, Opt, U32); (2, Opt, U16); (3, Opt, U32)].
 Definition BlockTables : ty :=
-  S_ [(0, NonEmpty, TArr TBytes); (1, NonEmpty, TArr ClassType); (2, NonEmpty, TArr TBytes);
+  SA_ [true; true; true; true; true; true; true; true; true] [(0, NonEmpty, TArr TBytes); (1, NonEmpty, TArr ClassType); (2, NonEmpty, TArr TBytes);
       (3, NonEmpty, TArr QueryResponseSignature); (4, NonEmpty, TArr TIdx); (5, NonEmpty, TArr Question);
       (6, NonEmpty, TArr TIdx); (7, NonEmpty, TArr RR); (8, NonEmpty, TArr MalformedMessageData)].
 Definition Block : ty :=
-  S_ [(0, Mand, BlockPreamble); (1, Opt, BlockStatistics); (2, Opt, BlockTables);
+  SA_ [false; false; true; true; true; true] [(0, Mand, BlockPreamble); (1, Opt, BlockStatistics); (2, Opt, BlockTables);
       (3, NonEmpty, TArr QueryResponse); (4, NonEmpty, TArr AddressEventCount); (5, NonEmpty, TArr MalformedMessage)].
 Local Close Scope Z_scope.
 
